@@ -286,6 +286,19 @@ def evaluate(ctx, case, outs, light=False):
     r = call_impl(di.pcDelta_grouped_cross, df, byarg, 's', bins=0)
     if r[0] != 'ok' or not matrix_ok(r[1], names, pdsq):
         bad.append(('distance.pcDelta_grouped_cross[square]', 'pcDelta_grouped_cross(by=%r, bins=0) =\n%s\nmodel (within-group value on the diagonal): groups %s matrix %s' % (by, r[1], names, pdsq)))
+    # -- the sequence given as TWO columns (paired chains: first residue / rest, so rows coincide exactly when the sequences do and some
+    #    rows share one column only): the coincidence form of a list of columns is that of the rows, value for value as above
+    df2 = df.assign(CDR3A=[str(x)[:1] for x in df['s']], CDR3B=[str(x)[1:] for x in df['s']])
+    ctx.count('paired_columns_bins0')
+    r = call_impl(di.pcDelta_grouped_cross, df2, byarg, ['CDR3A', 'CDR3B'], bins=0)
+    if r[0] != 'ok' or not matrix_ok(r[1], names, pdsq):
+        bad.append(('distance.pcDelta_grouped_cross[square,two columns]', 'pcDelta_grouped_cross(by=%r, seq_columns=[CDR3A, CDR3B], bins=0) =\n%s\nmodel (rows '
+                    'coincide iff both columns do): groups %s matrix %s' % (by, r[1], names, pdsq)))
+    r = call_impl(di.pcDelta_grouped, df2, byarg, ['CDR3A', 'CDR3B'], bins=0)
+    a = by_label(r[1], names) if r[0] == 'ok' else None
+    if a is None or not rows_ok(a, [None if m is None else [m] for _, m in pdg0]):
+        bad.append(('distance.pcDelta_grouped[bins=0,two columns]', 'pcDelta_grouped(by=%r, seq_columns=[CDR3A, CDR3B], bins=0) =\n%s\nbut the pc of each '
+                    'group\'s rows is %s' % (by, r[1], [(k2p[frz(k)], str(m)) for k, m in pdg0])))
     if not light:
         r = call_impl(di.pcDelta_grouped_cross, df, byarg, 's', condensed=True, bins=0)
         a = pairs_by_label(r[1], pairs) if r[0] == 'ok' else None
